@@ -26,6 +26,19 @@ def p_upstream(qos):
     }
 
 
+def p_upstream_ticker():
+    """P: an upstream with the DEFAULT flush policy (interval 100 ms or 10000 bytes) that never calls Flush: its points leave by the ticker.
+    State() is sampled 600 ms after each write: nothing may still be buffered - whatever other streams do with their tickers."""
+    w = lambda t: [{"a": "write", "g": "WP", "obj": "P", "id": "A", "pts": [[t, 8]], "ctxMs": 2000, "wait": True}, {"a": "sleep", "ms": 600}, {"a": "state", "obj": "P"},
+                   {"a": "ack", "obj": "P", "all": True}, {"a": "sleep", "ms": 30}]
+    return {
+        "open": [{"a": "openUp", "obj": "P", "qos": "reliable", "policy": {"k": "default"}, "must": True, "closeTimeoutMs": 2000}],
+        "before": w(1) + w(2),
+        "after": [{"a": "sleep", "ms": 150}] + w(3) + w(4) + [{"a": "closeUp", "g": "CP", "obj": "P", "ctxMs": 3000}, {"a": "ackUntilIdle", "obj": "P", "src": "CP", "ms": 3000},
+                                                           {"a": "join", "obj": "CP"}],
+    }
+
+
 def p_downstream():
     o = {"a": "openDown", "obj": "P", "qos": "reliable", "srcs": ["n1"], "ackFlushMs": 20, "must": True}
     ch = lambda k, up, f: {"a": "sendChunk", "obj": "P", "up": up, "upF": f, "upAl": -1 if f == "alias" else 0, "seq": k,
@@ -62,6 +75,14 @@ def q_variants():
     v["up-same-ids-acked"] = ([{"a": "openUp", "obj": "Q", "qos": "reliable", "must": True, "closeTimeoutMs": 1000}],
                               wq(101) + [{"a": "ack", "obj": "Q", "seqs": [1], "aliases": {"A": 77, "B": 78}}] + wq(102) + [{"a": "ack", "obj": "Q", "seqs": [2, 1]}], [],
                               wq(103) + [{"a": "ack", "obj": "Q", "all": True}, {"a": "closeUp", "g": "CQ", "obj": "Q", "ctxMs": 1500, "wait": True}])
+    # Q uses the library's default flush policy as well (the same policy instance as a P that does not choose one) and is closed early
+    v["up-default-closed-early"] = ([{"a": "openUp", "obj": "Q", "qos": "unreliable", "policy": {"k": "default"}, "must": True, "closeTimeoutMs": 500}],
+                                    [{"a": "write", "g": "WQ", "obj": "Q", "id": "A", "pts": [[101, 8]], "ctxMs": 2000, "wait": True}, {"a": "sleep", "ms": 250},
+                                     {"a": "ack", "obj": "Q", "all": True}, {"a": "closeUp", "g": "CQ", "obj": "Q", "ctxMs": 1500, "wait": True}], [], [])
+    v["up-default"] = ([{"a": "openUp", "obj": "Q", "qos": "reliable", "policy": {"k": "default"}, "must": True, "closeTimeoutMs": 1000}],
+                       [{"a": "write", "g": "WQ", "obj": "Q", "id": "A", "pts": [[101, 8]], "ctxMs": 2000, "wait": True}], [],
+                       [{"a": "sleep", "ms": 100}, {"a": "write", "g": "WQ", "obj": "Q", "id": "A", "pts": [[102, 8]], "ctxMs": 2000, "wait": True}, {"a": "sleep", "ms": 250},
+                        {"a": "ack", "obj": "Q", "all": True}, {"a": "closeUp", "g": "CQ", "obj": "Q", "ctxMs": 1500, "wait": True}])
     v["up-closed-before-cut"] = ([{"a": "openUp", "obj": "Q", "qos": "unreliable", "must": True, "closeTimeoutMs": 500}],
                                  wq(101) + [{"a": "ack", "obj": "Q", "all": True}, {"a": "closeUp", "g": "CQ", "obj": "Q", "ctxMs": 1500, "wait": True}], [], [])
     v["up-resume-refused"] = ([{"a": "openUp", "obj": "Q", "qos": "unreliable", "must": True, "closeTimeoutMs": 500}], wq(101),
@@ -114,11 +135,16 @@ def run():
     os.remove(os.path.join(SPEC, cfg))
     scs = []
     qs = q_variants()
-    for pname, p in (("up-reliable", p_upstream("reliable")), ("up-unreliable", p_upstream("unreliable")), ("down", p_downstream()), ("down-late", p_downstream_late())):
+    for pname, p in (("up-reliable", p_upstream("reliable")), ("up-unreliable", p_upstream("unreliable")), ("down", p_downstream()), ("down-late", p_downstream_late()),
+                     ("up-ticker", p_upstream_ticker())):
         for qname, q in qs.items():
             if qname == "none":
                 continue
             if pname == "down-late" and qname not in ("down", "up-reliable"):
+                continue
+            if pname == "up-ticker" and qname not in ("up-default-closed-early", "up-default", "up-reliable", "up-resume-refused"):
+                continue
+            if pname != "up-ticker" and qname in ("up-default-closed-early", "up-default"):
                 continue
             for cut in (True, False):
                 if qname == "down-open-at-recovery" and not cut:
